@@ -415,22 +415,40 @@ def translate_lineprefix(mod: ast.Module) -> str:
 # Parser.subparse / autoindent
 # ---------------------------------------------------------------------------------------------
 
+MARKER_START_SRC = """def marker_start(token, starts):
+    for start in sorted((s for s in starts if s), key=len, reverse=True):
+        if token.value and token.value.endswith(start + '*'):
+            return start
+    return None"""
+
+
 def translate_autoindent(mod: ast.Module) -> str:
+    """two accepted shapes of the marker code in Parser.subparse:
+       legacy           : token.value.endswith('*') / prefix = token.value[:-3]
+       delimiter-aware  : start = marker_start(token, (<env start strings>)) / prefix = token.value[:-(len(start) + 1)]
+                          (design_notes/C19_marker_delimiter_fix.patch)"""
     sub = find_function(mod, 'Parser', 'subparse')
-    auto = None
-    for st in sub.body:
-        if isinstance(st, ast.FunctionDef) and st.name == 'autoindent':
-            auto = st
+    inner = {st.name: st for st in sub.body if isinstance(st, ast.FunctionDef)}
+    auto = inner.get('autoindent')
     if auto is None:
         raise Unsupported('Parser.subparse: inner function autoindent not found')
-    if [a.arg for a in auto.args.args] != ['rv', 'token']:
+    aware = 'marker_start' in inner
+    if sorted(inner) != sorted(['flush_data', 'autoindent'] + (['marker_start'] if aware else [])):
+        raise Unsupported('Parser.subparse: unexpected inner functions %r' % sorted(inner))
+    if [a.arg for a in auto.args.args] != (['rv', 'token', 'start'] if aware else ['rv', 'token']):
         raise Unsupported('autoindent: signature')
     src = [ast.unparse(s) for s in auto.body]
-    # prefix = token.value[:-N]
-    m = re.fullmatch(r'prefix = token\.value\[:-(\d+)\]', src[0])
-    if not m:
-        raise Unsupported('autoindent: first statement is not prefix = token.value[:-N]')
-    drop = int(m.group(1))
+    if aware:
+        if src[0] != 'prefix = token.value[:-(len(start) + 1)]':
+            raise Unsupported('autoindent: first statement is not prefix = token.value[:-(len(start) + 1)]')
+        if ast.unparse(inner['marker_start']) != MARKER_START_SRC:
+            raise Unsupported('marker_start: body changed')
+        drop = 0
+    else:
+        m = re.fullmatch(r'prefix = token\.value\[:-(\d+)\]', src[0])
+        if not m:
+            raise Unsupported('autoindent: first statement is not prefix = token.value[:-N]')
+        drop = int(m.group(1))
     if len(auto.body) != 3 or not isinstance(auto.body[1], ast.If) or src[2] != 'return node':
         raise Unsupported('autoindent: unexpected body shape')
     iff = auto.body[1]
@@ -446,16 +464,25 @@ def translate_autoindent(mod: ast.Module) -> str:
         raise Unsupported('autoindent: two different filters')
     # the two call sites inside the token loop
     sites = []
+    want_test = 'start is not None' if aware else "token.value and token.value.endswith('*')"
     for n in ast.walk(sub):
-        if isinstance(n, ast.If) and ast.unparse(n.test) == "token.value and token.value.endswith('*')":
+        if isinstance(n, ast.If) and ast.unparse(n.test) == want_test:
             sites.append(ast.unparse(n.body[0]) if len(n.body) == 1 else '?')
     n_sites = ast.unparse(sub).count('autoindent(')
-    if not (sorted(sites) == sorted(['rv = autoindent(rv, token)', 'body.append(autoindent(rv if isinstance(rv, list) else [rv], token))'])
+    extra = ', start' if aware else ''
+    if not (sorted(sites) == sorted(['rv = autoindent(rv, token%s)' % extra, 'body.append(autoindent(rv if isinstance(rv, list) else [rv], token%s))' % extra])
             and n_sites == 3):
         raise Unsupported('subparse: autoindent call sites changed (%d occurrences, guarded: %r)' % (n_sites, sites))
+    if aware:
+        starts = sorted(ast.unparse(n) for n in ast.walk(sub) if isinstance(n, ast.Assign) and ast.unparse(n.targets[0]) == 'start')
+        if starts != ['start = marker_start(token, (self.environment.block_start_string, self.environment.line_statement_prefix))',
+                      'start = marker_start(token, (self.environment.variable_start_string,))']:
+            raise Unsupported('subparse: marker_start call sites changed: %r' % (starts,))
     return ('Definition autoindent_drop : nat := %d.\n'
             'Definition autoindent_filter_name : str := %s.\n'
-            'Definition autoindent_marker_char : N := %d%%N.\n' % (drop, _coq_str(fm.group(1)), ord('*')))
+            'Definition autoindent_marker_char : N := %d%%N.\n'
+            '(* true: the marker test and the prefix are computed from the environment start strings (delimiter-aware patch) *)\n'
+            'Definition autoindent_delimiter_aware : bool := %s.\n' % (drop, _coq_str(fm.group(1)), ord('*'), 'true' if aware else 'false'))
 
 
 # ---------------------------------------------------------------------------------------------
@@ -579,6 +606,8 @@ COMBOS = [
     dict(LS, lstrip_blocks=True, trim_blocks=True),
     dict(ASP),
     dict(ASP, lstrip_blocks=True, trim_blocks=True),
+    # a block delimiter ending in '*' and a variable delimiter that is not two characters long (marker code: D2 / D1)
+    dict(block_start_string='<*', block_end_string='*>', variable_start_string='\\VAR{', variable_end_string='}'),
 ]
 
 RULES_SNIPPET = r'''
@@ -742,8 +771,14 @@ class _Demark(ast.NodeTransformer):
             if isinstance(st, ast.FunctionDef) and st.name == 'autoindent':
                 self.removed.append('def autoindent')
                 continue
-            if isinstance(st, ast.If) and ast.unparse(st.test) == MARK_TEST:
-                self.removed.append('if marker: ' + ast.unparse(st.body[0]))
+            if isinstance(st, ast.FunctionDef) and st.name == 'marker_start':
+                self.removed.append('def marker_start')
+                continue
+            if isinstance(st, ast.Assign) and ast.unparse(st.targets[0]) == 'start' and ast.unparse(st.value).startswith('marker_start(token, '):
+                self.removed.append('start = marker_start')
+                continue
+            if isinstance(st, ast.If) and ast.unparse(st.test) in (MARK_TEST, 'start is not None'):
+                self.removed.append('if marker: ' + ast.unparse(st.body[0]).replace(', start)', ')'))
                 if st.orelse:
                     out.extend(self._block(st.orelse))
                 continue
@@ -827,8 +862,9 @@ def gen_jinjapins() -> typing.Tuple[bool, str]:
         dm = _Demark()
         bsub = _MaskText().visit(dm.generic_visit(bsub))
         ast.fix_missing_locations(bsub)
-        if sorted(dm.removed) != sorted(['def autoindent', 'if marker: rv = autoindent(rv, token)',
-                                         'if marker: body.append(autoindent(rv if isinstance(rv, list) else [rv], token))']):
+        legacy_set = ['def autoindent', 'if marker: rv = autoindent(rv, token)',
+                      'if marker: body.append(autoindent(rv if isinstance(rv, list) else [rv], token))']
+        if sorted(dm.removed) not in (sorted(legacy_set), sorted(legacy_set + ['def marker_start', 'start = marker_start', 'start = marker_start'])):
             raise Unsupported('Parser.subparse: the set of marker-specific statements changed: %r' % (dm.removed,))
         parts = [
             '(* Parser.subparse of the bundled parser with the three marker-specific pieces removed, and the stock method *)\n'
@@ -908,20 +944,48 @@ MARK_RE = re.compile(r'auto-?indent|lineprefix', re.I)
 class _Unrename(ast.NodeTransformer):
     def visit_Constant(self, n):
         if isinstance(n.value, str) and 'nunavut.jinja.' in n.value:
-            return ast.copy_location(ast.Constant(value=n.value.replace('nunavut.jinja.jinja2', 'jinja2').replace('nunavut.jinja.markupsafe', 'markupsafe')), n)
+            return ast.copy_location(ast.Constant(value=n.value.replace('nunavut.jinja.jinja2', '<vendored>').replace('nunavut.jinja.markupsafe', '<vendored-markupsafe>')), n)
         return n
 
     def visit_ImportFrom(self, n):
-        if n.module and n.module.startswith('nunavut.jinja.'):
-            n.module = n.module.replace('nunavut.jinja.jinja2', 'jinja2').replace('nunavut.jinja.markupsafe', 'markupsafe')
+        # the vendored package imports ITSELF by absolute name: nunavut.jinja.jinja2.X is mapped to the marker <vendored>.X.
+        # An import of the real top-level `jinja2` / `markupsafe` (stock code!) keeps its name, so it can never hash like the
+        # vendored import it replaced.
+        if n.module and (n.module == 'nunavut.jinja.jinja2' or n.module.startswith('nunavut.jinja.jinja2.')):
+            n.module = '<vendored>' + n.module[len('nunavut.jinja.jinja2'):]
+        elif n.module and (n.module == 'nunavut.jinja.markupsafe' or n.module.startswith('nunavut.jinja.markupsafe.')):
+            n.module = '<vendored-markupsafe>' + n.module[len('nunavut.jinja.markupsafe'):]
         return n
+
+    def visit_Import(self, n):
+        return n
+
+
+class _StockSelf(ast.NodeTransformer):
+    """stock side of the structural reference: its own package (relative imports, `jinja2.`, `markupsafe.`) -> the same markers"""
+
+    def visit_ImportFrom(self, n):
+        if n.level and n.level > 0:
+            n.module = '<vendored>' + ('.' + n.module if n.module else '')
+            n.level = 0
+        elif n.module and (n.module == 'jinja2' or n.module.startswith('jinja2.')):
+            n.module = '<vendored>' + n.module[len('jinja2'):]
+        elif n.module and (n.module == 'markupsafe' or n.module.startswith('markupsafe.')):
+            n.module = '<vendored-markupsafe>' + n.module[len('markupsafe'):]
+        return n
+
+    def visit_Constant(self, n):
+        return n
+
+
+_REFERENCE_SIDE = [False]
 
 
 def _fn_digest(fn: ast.AST) -> str:
     import copy
     f = copy.deepcopy(fn)
     f.returns = None
-    f = _Unrename().visit(f)
+    f = (_StockSelf() if _REFERENCE_SIDE[0] else _Unrename()).visit(f)
     f = shape_pin._Norm(f).visit(f)
     for node in ast.walk(f):
         if hasattr(node, 'type_comment'):
@@ -949,7 +1013,7 @@ def _functions(mod: ast.Module) -> typing.List[typing.Tuple[str, ast.AST]]:
 def _module_rest_digest(mod: ast.Module) -> str:
     """the module with every function body replaced by `pass` (class attributes, module-level statements, signatures stay)"""
     import copy
-    m = _Unrename().visit(copy.deepcopy(mod))
+    m = (_StockSelf() if _REFERENCE_SIDE[0] else _Unrename()).visit(copy.deepcopy(mod))
 
     class Strip(ast.NodeTransformer):
         def visit_FunctionDef(self, n):
@@ -1002,9 +1066,7 @@ def _documented_sites(repo: str) -> typing.List[typing.Tuple[str, str]]:
     def add(key, why):
         sites.setdefault(key, set()).add(why)
     vdir = os.path.join(repo, VENDOR_DIR)
-    for name in sorted(os.listdir(vdir)):
-        if not name.endswith('.py'):
-            continue
+    for name in sorted(_walk_package(vdir)):
         src, mod, fns, _ = _module_table(os.path.join(vdir, name), name[:-3])
         for tok in tokenize.generate_tokens(io.StringIO(src).readline):
             if tok.type == tokenize.COMMENT and MARK_RE.search(tok.string):
@@ -1047,15 +1109,44 @@ def _documented_sites(repo: str) -> typing.List[typing.Tuple[str, str]]:
     return sorted((k, ', '.join(sorted(v))) for k, v in sites.items())
 
 
+VENDOR_PACKAGES = [('src/nunavut/jinja/jinja2', '', STOCK_DIR), ('src/nunavut/jinja/markupsafe', 'markupsafe/', '/venv/lib/python3.12/site-packages/markupsafe')]
+ALLOWED_NON_PY = {'_speedups.c', '__pycache__', 'py.typed', '_speedups.pyi'}
+
+
+def _walk_package(root: str):
+    """every *.py below root (recursively); fails on anything that could shadow a module or carry code we do not hash"""
+    found = []
+    for dirpath, dirnames, filenames in os.walk(root):
+        dirnames[:] = sorted(d for d in dirnames if d != '__pycache__')
+        rel = os.path.relpath(dirpath, root)
+        for d in dirnames:
+            if os.path.exists(os.path.join(dirpath, d + '.py')):
+                raise Unsupported('vendored copy: package directory %s shadows module %s.py' % (os.path.join(rel, d), d))
+        for f in sorted(filenames):
+            if f.endswith('.py'):
+                found.append(os.path.normpath(os.path.join(rel, f)))
+            elif f.endswith(('.pyc', '.pyo')) or f in ALLOWED_NON_PY:
+                continue
+            elif f.endswith(('.so', '.pyd', '.pth', '.pyx')):
+                raise Unsupported('vendored copy: unhashed code file %s' % os.path.join(rel, f))
+    return found
+
+
 def vendor_tables(repo: str):
     bund, stock = [], {}
-    vdir = os.path.join(repo, VENDOR_DIR)
-    for name in sorted(os.listdir(vdir)):
-        if name.endswith('.py'):
-            bund += _module_table(os.path.join(vdir, name), name[:-3])[3]
-            sp = os.path.join(STOCK_DIR, name)
+    for rel_root, prefix, stock_root in VENDOR_PACKAGES:
+        vdir = os.path.join(repo, rel_root)
+        for relpy in _walk_package(vdir):
+            modname = prefix + relpy[:-3].replace(os.sep, '.')
+            _REFERENCE_SIDE[0] = False
+            bund += _module_table(os.path.join(vdir, relpy), modname)[3]
+            sp = os.path.join(stock_root, relpy)
             if os.path.exists(sp):
-                stock.update(_module_table(sp, name[:-3])[3])
+                _REFERENCE_SIDE[0] = True
+                try:
+                    stock.update(_module_table(sp, modname)[3])
+                finally:
+                    _REFERENCE_SIDE[0] = False
     return bund, stock
 
 
@@ -1090,7 +1181,10 @@ def update_vendor_pins() -> None:
      documented-delta : listed in `documented_delta_keys` (must then also be derivable from the tree's own evidence, see
                         Gen_JinjaVendor.documented_sites: marker comment/docstring/identifier, package rename, git log);
      neutral          : any other digest change (refactoring without behavioural effect) -- say so in the commit message.
-   Baseline = the vendored tree at /repo HEAD 6038635 (upstream pallets/jinja commit 7e417c5c, per /repo/subtree.json, is NOT
+   Covers src/nunavut/jinja/jinja2 AND src/nunavut/jinja/markupsafe, walked recursively (a package directory shadowing a module,
+   or an unhashed extension/code file, makes the translator fail closed); imports are part of the digests: the vendored
+   package's own absolute imports are mapped to <vendored>.X, an import of the real top-level jinja2/markupsafe is NOT.
+   Baseline = the vendored tree at /repo HEAD (upstream pallets/jinja commit 7e417c5c, per /repo/subtree.json, is NOT
    available offline: digests cannot be compared with it; Gen_JinjaVendor.stock31_digests is a 3.1.x structural reference). *)
 From Coq Require Import String.
 From Verif Require Export JinjaRules.
